@@ -2,6 +2,8 @@
 
 from __future__ import annotations
 
+import json
+import os
 import random
 import typing
 import warnings
@@ -43,7 +45,7 @@ def required_counters(tier):
         "typevar.compared": 30,
         "scalar.kept": 20,
         "scalar.dropped": 50,
-        "aliases.compared": 3, "union.of_nested_compared": 30,
+        "aliases.compared": 3, "union.of_nested_compared": 30, "any.arraylike_compared": 500, "any.tf_values": 4, "prng_impl.processes": 6,
     }
 
 
@@ -377,6 +379,117 @@ def law_aliases(rec):
         rec.violation("alias", {"law": ["alias", "Int[Scalar,'']"]}, "Int[Scalar,''] != Int[Array,'']", mechanism="alias-nesting")
 
 
+def law_any_arraylike(rec):
+    """'any array-like object' is anything with a shape and a dtype: TensorFlow tensors and variables (shape is a
+    TensorShape), objects whose shape is a list, a tuple subclass (torch.Size style) or another sequence - judged
+    against the dims model and the dtype oracle, not against another jaxtyping annotation"""
+    import jaxtyping
+
+    class Seq:
+        def __init__(self, t):
+            self.t = tuple(t)
+
+        def __len__(self):
+            return len(self.t)
+
+        def __iter__(self):
+            return iter(self.t)
+
+        def __getitem__(self, i):
+            r = self.t[i]
+            return Seq(r) if isinstance(i, slice) else r
+
+        def __eq__(self, o):
+            return tuple(self) == tuple(o)
+
+        def __hash__(self):
+            return hash(self.t)
+
+    class Size(tuple):
+        pass
+
+    vals = {}
+    for shp in ((2, 3), (), (3,)):
+        vals[f"duck(list {list(shp)})"] = (real.Duck(list(shp), "float32"), shp)
+        vals[f"duck(Seq {shp})"] = (real.Duck(Seq(shp), "float32"), shp)
+        vals[f"duck(tuple-subclass {shp})"] = (real.Duck(Size(shp), "float32"), shp)
+    try:
+        import tensorflow as tf
+
+        for shp in ((2, 3), (), (3,)):
+            vals[f"tf.Tensor{shp}"] = (tf.zeros(shp, dtype=tf.float32), shp)
+        vals["tf.Variable(2, 3)"] = (tf.Variable(tf.zeros((2, 3))), (2, 3))
+        rec.count("any.tf_values", 4)
+    except Exception:
+        pass
+    T = typing.TypeVar("T")
+    for vname, (x, shp) in vals.items():
+        for cname, dt_ok in (("Shaped", True), ("Float", True), ("Float32", True), ("Int", False), ("Num", True), ("Bool", False)):
+            for spec in ("a b", "a", "", "...", "*v b", "a 3", "a 4", "#a #b", "*v", "2 _"):
+                for tname, at in (("Any", typing.Any), ("TypeVar", T)):
+                    ann = getattr(jaxtyping, cname)[at, spec]
+                    got = real.in_block_context(lambda: real.check(x, ann))
+                    vd = M.match(M.parse(spec), tuple(shp), {}, {}, {})[0]
+                    want = "ok" if (dt_ok and vd == "ok") else "no"
+                    rec.count("any.arraylike_compared")
+                    rec.case(("any", vname, cname, spec, tname), True)
+                    if got != want:
+                        rec.violation("any-arraylike", {"law": ["any-arraylike", vname, cname, spec, tname]}, f"{cname}[{tname}, {spec!r}] on {vname} (float32): {got}, expected {want}", mechanism=f"any-arraylike-{vname.split('(')[0].split(' ')[0]}-{got}")
+                        return
+
+
+PRNG_CHILD = r'''
+import json, os, sys, typing, warnings
+warnings.filterwarnings("ignore")
+import numpy as np, jax, jax.numpy as jnp
+how = sys.argv[1]
+if how.startswith("config:"):
+    jax.config.update("jax_default_prng_impl", how.split(":")[1])
+import jaxtyping
+P = jaxtyping.PRNGKeyArray
+vals = {
+  "uint32(2,)": jnp.zeros((2,), dtype="uint32"), "uint32(4,)": jnp.zeros((4,), dtype="uint32"), "uint32(3,)": jnp.zeros((3,), dtype="uint32"),
+  "int32(2,)": jnp.zeros((2,), dtype="int32"), "float32(2,)": jnp.zeros((2,)), "uint32()": jnp.zeros((), dtype="uint32"),
+  "key(0)": jax.random.key(0), "key(0,impl=rbg)": jax.random.key(0, impl="rbg"), "key(0,impl=threefry2x32)": jax.random.key(0, impl="threefry2x32"),
+  "split(key)": jax.random.split(jax.random.key(0), 2), "PRNGKey(0,impl=threefry2x32)": jax.random.PRNGKey(0, impl="threefry2x32"),
+  "numpy uint32(2,)": np.zeros((2,), dtype="uint32"),
+}
+out = {}
+for k, v in vals.items():
+    try:
+        out[k] = any(isinstance(v, alt) for alt in (typing.get_args(P) if typing.get_origin(P) is typing.Union else (P,)))
+    except Exception as e:
+        out[k] = "exc:" + type(e).__name__
+print(json.dumps(out))
+'''
+
+
+def law_prng_impls(rec):
+    """PRNGKeyArray = Union[Key[Array, ''], UInt32[Array, '2']] - whichever PRNG implementation the process has
+    configured (environment or jax.config, before jaxtyping is imported)"""
+    import subprocess
+    import sys
+
+    want = {"uint32(2,)": True, "uint32(4,)": False, "uint32(3,)": False, "int32(2,)": False, "float32(2,)": False, "uint32()": False, "key(0)": True, "key(0,impl=rbg)": True, "key(0,impl=threefry2x32)": True, "split(key)": False, "PRNGKey(0,impl=threefry2x32)": True, "numpy uint32(2,)": False}
+    for how in ("default", "env:rbg", "env:unsafe_rbg", "env:threefry2x32", "config:rbg", "config:unsafe_rbg"):
+        env = dict(os.environ)
+        env.pop("JAX_DEFAULT_PRNG_IMPL", None)
+        if how.startswith("env:"):
+            env["JAX_DEFAULT_PRNG_IMPL"] = how.split(":")[1]
+        r = subprocess.run([sys.executable, "-c", PRNG_CHILD, how], capture_output=True, text=True, env=env, timeout=300)
+        try:
+            out = json.loads(r.stdout.strip().splitlines()[-1])
+        except Exception:
+            rec.inconclusive.append(f"prng child {how} failed: {r.stderr[-300:]}")
+            continue
+        rec.count("prng_impl.processes")
+        rec.case(("prng", how), True)
+        for k, w in want.items():
+            if out.get(k) is not w:
+                rec.violation("alias", {"law": ["alias", "PRNGKeyArray", how, k]}, f"process with PRNG implementation {how}: isinstance({k}, PRNGKeyArray) = {out.get(k)}, documented definition says {w}", mechanism="alias-PRNGKeyArray-under-" + how.split(":")[0] + "-impl")
+                break
+
+
 def run_shard(rec, seed, shard, tier):
     import jax
 
@@ -405,6 +518,10 @@ def run_shard(rec, seed, shard, tier):
         law_typevars(rec)
     if shard["i"] == 3:
         law_union_of_nested(rec)
+    if shard["i"] == 4:
+        law_any_arraylike(rec)
+    if shard["i"] == 5:
+        law_prng_impls(rec)
     rec.info["nest_space"] = idx if shard["i"] == 0 else 0
     rec.sample({"law": "nesting", "instance": ["Float", "Shaped", "a b", "*v", "ndarray"]})
 
